@@ -114,6 +114,9 @@ def coq_property(prop, theorems):
     property file itself (capturing Check / Print Assumptions output) and returns
     (obligations, discharged, details, log)."""
     obligations = []
+    if not os.path.exists(os.path.join(COQ, "Properties", prop + ".v")):
+        rc, out, _ = coq_make(["Extract.vo"])
+        return [("build:coq model (no property file yet for %s)" % prop, rc == 0)], {}, out
     rc, out, _ = coq_make(["Properties/%s.vo" % prop])
     dep_ok = (rc == 0)
     obligations.append(("build:Properties/%s.vo and everything it depends on" % prop, dep_ok))
